@@ -416,6 +416,85 @@ def rx_enum_conversions():
     return out, enums
 
 
+def rx_choice_subscripts(alt_names=None):
+    """round 5: subscripts `<expr>["<alt>"]` (read) in the receive path of VBSClusteringManager whose constant key is the
+    name of an alternative of a CHOICE reachable from the VAM type.  A decoded CHOICE holds exactly ONE alternative, so
+    such a subscript raises KeyError for every other (legal) alternative unless the very same key was tested first.
+    A subscript is GUARDED when an enclosing `if` / `elif` / conditional expression / `while` test or an earlier operand
+    of an enclosing `and` contains `"<alt>" in <x>` or `<x> == "<alt>"`, or when an earlier statement of an enclosing
+    block is `if <"<alt>" not in <x> | <x> != "<alt>">:` ending in return / continue / break / raise.
+    Returns ([(method, alt)] unguarded, number of guarded ones)."""
+    import ast
+    tree = ast.parse(gen_lean.src(CLUSTERING_SRC))
+    cls = next((n for n in tree.body if isinstance(n, ast.ClassDef) and n.name == CLUSTERING_CLASS), None)
+    if cls is None:
+        raise ValueError(f"class {CLUSTERING_CLASS} not found")
+    fns = {f.name: f for f in cls.body if isinstance(f, (ast.FunctionDef, ast.AsyncFunctionDef))}
+    if "on_received_vam" not in fns:
+        raise ValueError("VBSClusteringManager.on_received_vam not found")
+    reach, todo = [], ["on_received_vam"]
+    while todo:
+        nm = todo.pop(0)
+        if nm in reach:
+            continue
+        reach.append(nm)
+        for n in ast.walk(fns[nm]):
+            if isinstance(n, ast.Call) and _is_self_attr(n.func) and n.func.attr in fns:
+                todo.append(n.func.attr)
+    if alt_names is None:
+        alt_names = {a for _p, _n, kind, dom in VamAsn.get().fields() if kind == "choice" for a in dom}
+
+    def tests(expr, key, positive):
+        """does `expr` contain the membership / equality test of `key` (positive) or its negation?"""
+        for c in ast.walk(expr):
+            if not isinstance(c, ast.Compare) or len(c.ops) != 1:
+                continue
+            l, op, r = c.left, c.ops[0], c.comparators[0]
+            isk = lambda x: isinstance(x, ast.Constant) and x.value == key      # noqa: E731
+            if positive and ((isinstance(op, ast.In) and isk(l)) or (isinstance(op, ast.Eq) and (isk(l) or isk(r)))):
+                return True
+            if not positive and ((isinstance(op, ast.NotIn) and isk(l)) or (isinstance(op, ast.NotEq) and (isk(l) or isk(r)))):
+                return True
+        return False
+
+    def leaves(stmts):
+        return bool(stmts) and isinstance(stmts[-1], (ast.Return, ast.Continue, ast.Break, ast.Raise))
+
+    unguarded, guarded = [], 0
+    for nm in reach:
+        parent = {}
+        for a in ast.walk(fns[nm]):
+            for c in ast.iter_child_nodes(a):
+                parent[id(c)] = a
+        for n in ast.walk(fns[nm]):
+            if not (isinstance(n, ast.Subscript) and isinstance(n.ctx, ast.Load) and isinstance(n.slice, ast.Constant)
+                    and isinstance(n.slice.value, str) and n.slice.value in alt_names):
+                continue
+            key, ok, c = n.slice.value, False, n
+            while id(c) in parent and not ok:
+                a = parent[id(c)]
+                if isinstance(a, (ast.If, ast.While)) and any(c is x for x in a.body):
+                    ok = tests(a.test, key, True)
+                elif isinstance(a, ast.IfExp) and c is a.body:
+                    ok = tests(a.test, key, True)
+                elif isinstance(a, ast.BoolOp) and isinstance(a.op, ast.And):
+                    idx = next(i for i, v in enumerate(a.values) if v is c)
+                    ok = any(tests(v, key, True) for v in a.values[:idx])
+                if not ok:
+                    for field in ("body", "orelse", "finalbody"):
+                        blk = getattr(a, field, None)
+                        if isinstance(blk, list) and any(c is x for x in blk):
+                            for st in blk[:next(i for i, x in enumerate(blk) if x is c)]:
+                                if isinstance(st, ast.If) and tests(st.test, key, False) and leaves(st.body):
+                                    ok = True
+                c = a
+            if ok:
+                guarded += 1
+            else:
+                unguarded.append((nm, key))
+    return unguarded, guarded
+
+
 @gen_lean.register(props=["C18"])
 def gen_vam_enums():
     asn = VamAsn.get()
@@ -438,5 +517,14 @@ def gen_vam_enums():
         n = len(dom) if kind in ("enum", "choice") else 2 ** dom[0] if dom[0] <= 4 else dom[0] + 2
         rows.append(f"({q('.'.join(path))}, {q(name)}, {n})")
     body += "def enumeratedFields : List (String × String × Nat) := [\n  " + ",\n  ".join(rows) + "]\n"
+    shape = next((dom for path, _n, kind, dom in asn.fields() if kind == "choice" and path[-1] == "clusterBoundingBoxShape"), [])
+    body += "/-- the alternatives of the `clusterBoundingBoxShape` CHOICE of a cluster information container (ASN.1 module) -/\n"
+    body += "def boundingBoxShapes : List String := [" + ", ".join(q(a) for a in shape) + "]\n"
+    ung, ngu = rx_choice_subscripts()
+    body += ("/-- receive path (methods reachable from `on_received_vam`): subscripts `<x>[\"<alt>\"]` by the name of a CHOICE\n"
+             "alternative of the VAM that are NOT preceded by a test of that very key (`\"<alt>\" in <x>` / `== \"<alt>\"`):\n"
+             "(method, alternative).  Such a subscript raises KeyError for every other alternative the decoder delivers. -/\n")
+    body += "def rxUnguardedChoiceSubscripts : List (String × String) := [" + ", ".join(f"({q(m)}, {q(k)})" for m, k in ung) + "]\n"
+    body += f"/-- ... and the number of such subscripts that ARE guarded -/\ndef rxGuardedChoiceSubscripts : Nat := {ngu}\n"
     body += "end Generated.VamEnums\n"
     gen_lean.write_if_changed("VamEnums.lean", body)
